@@ -273,7 +273,14 @@ def run_send_sweep(kind, k, variant="plain", seed=1):
         s1 = s.spawn("sender1", lambda: n.d.send_message(m1))
         solo([s1], lambda: s1.done)
         ended = False
-        if kind == "transport/feed":
+        if kind == "transport-read/psm":
+            # the transport thread is handling a READ event (nothing to write yet) when the state machine thread hands a stream over
+            want = m1.dump()
+            n.feed(n.make("ANS", True, 1).dump())
+            v, others = tr, [psm]
+            vend = lambda i: i > 0 and tr.pending is not None and tr.pending[0] == "select" and not n.sock.inbox
+            ocond = lambda: not a._send_messages.items and n.at_ticker(psm)
+        elif kind == "transport/feed":
             # one message, partial writes; the peer's data arrives after k steps of the transport thread
             solo([psm], lambda: attached() and n.at_ticker(psm))
             v, others = tr, []
@@ -326,7 +333,7 @@ def run_send_sweep(kind, k, variant="plain", seed=1):
             problems.append(f"threads died: {n.dead_threads()}")
         frames, rest = split_frames(sent)
         mine = [f for f in frames if not (len(f) >= 8 and int.from_bytes(f[5:8], "big") in (257, 280, 282))]      # base-protocol frames aside
-        expect = [m1.dump()] if kind == "transport/feed" else [m1.dump(), m2.dump()]
+        expect = [m1.dump()] if kind in ("transport/feed", "transport-read/psm") else [m1.dump(), m2.dump()]
         if rest or mine != expect:
             problems.append(f"{len(sent)} bytes written for {len(want)} submitted: {len(frames)} whole frame(s), {len(rest)} trailing bytes; "
                             f"m1 x{frames.count(m1.dump())}, m2 x{frames.count(m2.dump())}")
@@ -882,6 +889,11 @@ def garbage_segments(n, rng):
         "bad-utf8-uri": wrap((292).to_bytes(4, "big") + b"\x40" + (14).to_bytes(3, "big") + b"aaa:\xff\xfe\0\0"),
         "random": bytes(rng.getrandbits(8) for _ in range(rng.choice([1, 19, 20, 33, 64]))),
         "garbage-then-good": bytes([1, 0, 0, 24, 0x80, 0, 1, 60]) + bytes(12) + b"\xde\xad\xbe\xef" + good,
+        # a well-formed message first, the malformed bytes behind it in the same segment
+        "good-then-length0": good + bytes([1, 0, 0, 0]) + bytes(16),
+        "good-then-length19": good + bytes([1, 0, 0, 19]) + bytes(16) + bytes(8),
+        "good-then-random": good + bytes(rng.getrandbits(8) for _ in range(33)),
+        "dwr-then-length0": n.make("DWR", True, 2).dump() + bytes([1, 0, 0, 0]) + bytes(28),
     }
 
 
@@ -900,7 +912,24 @@ def run_garbage(seed, role, state, kind):
         if state == "closing":
             sc.s.spawn("closer0", n.d.close)
             sc.run(until=lambda: n.state() == "Closing", limit=4000)
-        seg = garbage_segments(n, rng)[kind]
+        if kind == "answer-known-e2e-unknown-hbh":
+            # the node has sent a request; the answer comes back with its End-to-End but a corrupted Hop-by-Hop
+            from bromelia.base import DiameterAnswer
+            from bromelia.avps import SessionIdAVP, ResultCodeAVP, OriginHostAVP, OriginRealmAVP
+            seg = b""
+            if state == "open":
+                req = app_request(11, local=n.local, dest_realm=n.peer[1])
+                t = sc.s.spawn("sender", lambda: n.d.send_message(req))
+                sc.run(until=lambda: t.done and len(n.sock.sent) >= len(req.dump()), limit=6000)
+                ans = DiameterAnswer(command_code=316, application_id=16777251)
+                ans.extend([SessionIdAVP(b"app;1;11"), ResultCodeAVP(2001), OriginHostAVP(n.peer[0]), OriginRealmAVP(n.peer[1])])
+                ans.header.end_to_end = req.header.end_to_end
+                ans.header.hop_by_hop = bytes([req.header.hop_by_hop[0] ^ 0x01]) + req.header.hop_by_hop[1:]
+                seg = ans.dump()
+            if not seg:
+                return None, {"skipped": "needs an open connection"}
+        else:
+            seg = garbage_segments(n, rng)[kind]
         n.feed(seg)
         try:
             sc.run(limit=3000, timers=False)
@@ -953,7 +982,8 @@ def run_garbage(seed, role, state, kind):
 def check_garbage(rep):
     rng = random.Random(rep.seed * 7919 + 33)
     kinds = ["length0", "length19", "short-header", "truncated", "avp-length-too-big", "avp-length-zero", "u32-five-bytes", "unknown-enumerator",
-             "misaddressed", "misaddressed-not-utf8-host", "misaddressed-not-utf8-realm", "dwr-origin-host-not-utf8", "cex-origin-realm-not-utf8", "bad-utf8-uri", "random", "garbage-then-good"]
+             "misaddressed", "misaddressed-not-utf8-host", "misaddressed-not-utf8-realm", "dwr-origin-host-not-utf8", "cex-origin-realm-not-utf8", "bad-utf8-uri", "random", "garbage-then-good", "good-then-length0", "good-then-length19", "good-then-random", "dwr-then-length0",
+             "answer-known-e2e-unknown-hbh"]
     cases = [("client", "open"), ("server", "open"), ("client", "wait-cea"), ("server", "before-cer"), ("client", "closing")]
     reps = 1 if rep.tier == "quick" else 10
     n = 0
